@@ -134,6 +134,23 @@ pub fn run(ctx: &Ctx) -> Value {
         tw.emit(ev("o.sum", json!({"a": dur(a), "b": dur(b), "via": "sum_refs"}), || json!({"r": dur([a, b].iter().sum::<TimeDelta>())})));
         tw.emit(ev("o.sum", json!({"a": dur(a), "b": dur(b), "via": "sum_values"}), || json!({"r": dur(vec![a, b].into_iter().sum::<TimeDelta>())})));
     }
+    // products whose exact value lies within a few milliseconds of either range end (note: -(2^63) ms is NOT in the range, the range is
+    // symmetric): for every multiplier of the lattice the multiplicands around +-LIM / k, and the exact factorisations of 2^63 ms
+    let mut mul_pairs: Vec<(i128, i32)> = Vec::new();
+    for &k in ks.iter().chain([4i32, -4, 5, 1 << 16, -(1 << 16), 1 << 30, -(1 << 30), 1_000_000, 999_999_937].iter()) {
+        if k == 0 { continue; }
+        for delta in [0i128, 1, -1, 999_999, 1_000_000, 1_000_001, -1_000_000, 2_000_000, NS] {
+            let q = (DUR_LIM + delta) / (k as i128).abs();
+            for a in [q - 1, q, q + 1] { mul_pairs.push((a, k)); mul_pairs.push((-a, k)); }
+        }
+    }
+    for j in 0..=31u32 { let a = (1i128 << (63 - j)) * 1_000_000; if j > 0 { for s in [1i128, -1] { for k in [(1i64 << j) as i32, (-(1i64 << j)) as i32] {
+        if (k as i128).abs() == 1i128 << j { mul_pairs.push((s * a, k)); mul_pairs.push((s * (a - 1), k)); mul_pairs.push((s * (a + 1), k)); } } } } }
+    for (an, k) in mul_pairs {
+        let a = match mk_dur(an) { Some(a) => a, None => continue };
+        tw.emit(ev("d.mul", json!({"a": dur(a), "k": big(k as i128)}), || json!({"r": od(a.checked_mul(k))})));
+        tw.emit(ev("o.mul", json!({"a": dur(a), "k": big(k as i128), "via": "mul_op"}), || json!({"r": dur(a * k)})));
+    }
     // sums of several durations, by reference and by value (the fold is left to right; a partial sum outside the range panics)
     for i in 0..ctx.t(400, 20_000) {
         let n = 3 + rng.below(4);
